@@ -10,6 +10,8 @@ pub use decoder::{
     DF, DisplayFlags, Downlink, Legend, LegendHeaders, Plane, Planes, UpdateFromDownlink,
     get_downlink_format, get_icao, get_message, set_observer_coords_from_str,
 };
+#[cfg(feature = "verif")]
+pub use decoder::format_simple_display;
 pub use errors::AppResult;
 pub use logger::initialize_logger;
 pub use reader::spawn_reader_thread;
